@@ -682,3 +682,80 @@ Proof. repeat split; vm_compute; reflexivity. Qed.
 Print Assumptions C10_a2b_array_spec.
 Print Assumptions C10_b2a_array_spec.
 Print Assumptions C10_a2b_b2a_round_trip.
+
+(* ====================================================================================== *)
+(* InversePermutation, ApplyPermutation, SegmentCumSum at the level of eval_node.
+   Property C18 (Props/C18.v: C18_apply_inverse_id, C18_apply_permutation_op_spec,
+   C18_execute_inverse_permutation_ok, C18_inverse_is_perm) proves the algebra of permutation
+   application and inversion on its own row-level model (Model/Sort.v); the statements below are
+   the element-wise documented readings for the evaluator model of this file, any rank.
+   [is_perm_list n p]: p lists n distinct values of [0, n). *)
+From CC Require Import Proofs.EvalSpecPerm.
+
+(* graphs.rs:2217: "output[i] = j if input[j] = i" -- and the result is again a permutation, with
+   input[output[i]] = i *)
+Theorem C10_inverse_permutation_spec : forall n st t es,
+  let p := map (as_u64 st) es in
+  is_perm_list n p ->
+  exists r, eval_node OInversePermutation [TArray [n] st] t [VArr es] = Ok (VArr r) /\
+    is_perm_list n r /\
+    (forall j, 0 <= j < n -> nth (Z.to_nat (nth (Z.to_nat j) p 0)) r 0 = j) /\
+    (forall i, 0 <= i < n -> nth (Z.to_nat (nth (Z.to_nat i) r 0)) p 0 = i).
+Proof. exact inverse_permutation_spec. Qed.
+(* ApplyPermutation along the first dimension: result[x] = a[p[x]]; with the inverse flag
+   result[p[x]] = a[x] *)
+Theorem C10_apply_permutation_spec : forall (inv : bool) n rest st ist t0 es p0,
+  0 < n -> valid_shape rest -> length es = Z.to_nat (prod_list (n :: rest)) ->
+  let p := map (as_u64 ist) p0 in
+  is_perm_list n p ->
+  exists r, eval_node (OApplyPermutation inv) [t0; TArray [n] ist] (TArray (n :: rest) st) [VArr es; VArr p0]
+            = Ok (VArr r) /\
+    length r = Z.to_nat (prod_list (n :: rest)) /\
+    forall x idx, 0 <= x < n -> in_shape idx rest ->
+      let px := nth (Z.to_nat x) p 0 in
+      if inv then get r (n :: rest) (px :: idx) = get es (n :: rest) (x :: idx)
+      else get r (n :: rest) (x :: idx) = get es (n :: rest) (px :: idx).
+Proof. exact apply_permutation_spec. Qed.
+(* SegmentCumSum (graphs.rs:2428): output[0] = v, output[i] = A[i-1] + B[i-1] * output[i-1],
+   element-wise on rows, modulo 2^w *)
+Theorem C10_segment_cumsum_spec : forall n rest st tb tf t A B v,
+  0 < n -> valid_shape rest -> prod_list (dims tf) = prod_list rest ->
+  let P := prod_list rest in let m := modulus st in
+  length A = Z.to_nat (n * P) -> length B = Z.to_nat n -> length v = Z.to_nat P ->
+  Forall (fun b => b = 0 \/ b = 1) B ->
+  Forall (fun e => 0 <= e < m) A -> Forall (fun e => 0 <= e < m) v ->
+  exists r, eval_node OSegmentCumSum [TArray (n :: rest) st; tb; tf] t [VArr A; VArr B; VArr v] = Ok (VArr r) /\
+    length r = Z.to_nat ((n + 1) * P) /\
+    forall i idx, 0 <= i <= n -> in_shape idx rest ->
+      get r ((n + 1) :: rest) (i :: idx) =
+      seg_cumsum_at (fun k => get A (n :: rest) (k :: idx)) (fun k => nth (Z.to_nat k) B 0)
+                    (get v rest idx) (Z.to_nat i) mod m.
+Proof. exact segment_cumsum_spec. Qed.
+
+Example C10_example_permutations :
+  is_perm_list 3 (map (as_u64 U64) [2; 0; 1]) /\
+  eval_node OInversePermutation [TArray [3] U64] (TArray [3] U64) [VArr [2; 0; 1]] = Ok (VArr [1; 2; 0]) /\
+  (* rows (10,11), (20,21), (30,2^100); result[x] = a[p[x]] *)
+  eval_node (OApplyPermutation false) [TArray [3; 2] U128; TArray [3] U64] (TArray [3; 2] U128)
+            [VArr [10; 11; 20; 21; 30; 2 ^ 100]; VArr [2; 0; 1]]
+  = Ok (VArr [30; 2 ^ 100; 10; 11; 20; 21]) /\
+  (* result[p[x]] = a[x] *)
+  eval_node (OApplyPermutation true) [TArray [3; 2] U128; TArray [3] U64] (TArray [3; 2] U128)
+            [VArr [10; 11; 20; 21; 30; 2 ^ 100]; VArr [2; 0; 1]]
+  = Ok (VArr [20; 21; 30; 2 ^ 100; 10; 11]).
+Proof.
+  split; [|repeat split; vm_compute; reflexivity].
+  split; [reflexivity|]. split; [repeat constructor; vm_compute; congruence|].
+  vm_compute. repeat constructor; cbn [In]; lia.
+Qed.
+Example C10_example_segment_cumsum :
+  (* 250, 10 + 250 = 4 (mod 256), 2 (segment restarts), 3 + 2, 4 + 5 *)
+  eval_node OSegmentCumSum [TArray [4] U8; TArray [4] Bit; TScalar U8] (TArray [5] U8)
+            [VArr [10; 2; 3; 4]; VArr [1; 0; 1; 1]; VArr [250]] = Ok (VArr [250; 4; 2; 5; 9]) /\
+  eval_node OSegmentCumSum [TArray [2; 2] U8; TArray [2] Bit; TArray [2] U8] (TArray [3; 2] U8)
+            [VArr [10; 2; 3; 4]; VArr [1; 1]; VArr [250; 1]] = Ok (VArr [250; 1; 4; 3; 7; 7]).
+Proof. split; vm_compute; reflexivity. Qed.
+
+Print Assumptions C10_inverse_permutation_spec.
+Print Assumptions C10_apply_permutation_spec.
+Print Assumptions C10_segment_cumsum_spec.
